@@ -31,3 +31,19 @@ if len(sys.argv) > 4 and sys.argv[4] == "discharge":
                 print("==", ob.name, r[0], ob.meta, "path", P.path_id)
                 for a in ob.assumptions[-25:]:
                     print("    ", str(a)[:220].replace("\n", " "))
+if len(sys.argv) > 4 and sys.argv[4] == "slow":
+    from pyvc.run import discharge
+    rows = []
+    for P, st in res:
+        for ob in P.obligations:
+            t1 = time.time()
+            r = discharge(ob, int(sys.argv[5]) if len(sys.argv) > 5 else 8000, 0, fallbacks=False)
+            rows.append((round(time.time() - t1, 2), ob.name, r[0], r[1], P.path_id, ob))
+    rows.sort(key=lambda x: -x[0])
+    for r in rows[:8]:
+        print(r[:5])
+    top = rows[0][5]
+    print("== slowest:", rows[0][1], "assumptions", len(top.assumptions))
+    for a in top.assumptions[-40:]:
+        print("    ", str(a)[:260].replace("\n", " "))
+    print("  goal:", str(top.goal)[:400])
